@@ -7,6 +7,8 @@
 //                M:<dir/>           create a directory;   K:… / KC  declarations for the model side (ignored here)
 //                D:<file>           delete it
 //                N:<0|1>            new Importer (strict flag); the previous one is destroyed
+//                N2:<0|1>           new Importer; the previous one stays alive (its library models too)
+//                T:<u|c>:<name>:<url>:<ref>  origin model object: importSource()->setUrl, setImportReference
 //                P:<file>           parse <file> (strict Parser) -> the origin model; prints P=bad if it has no model
 //                R                  resolveImports(origin, dir)  -> R=<0|1> I=[issues] L=[library keys]
 //                U                  origin->hasUnresolvedImports() (forked)   -> U=<0|1|CRASH(n)|TIMEOUT>
@@ -216,6 +218,7 @@ static std::string runCase(const std::string &line)
     cleanDir();
     std::vector<std::string> written;
     libcellml::ImporterPtr importer = libcellml::Importer::create(true);
+    std::vector<libcellml::ImporterPtr> retired;
     libcellml::ModelPtr origin;
     std::string out;
     auto emit = [&](const std::string &s) {
@@ -248,6 +251,24 @@ static std::string runCase(const std::string &line)
         } else if (op == "N") {
             importer = nullptr;
             importer = libcellml::Importer::create(f[1] == "1");
+        } else if (op == "N2") {
+            // a new importer while the previous one, and the library models its links point to, stay alive
+            retired.push_back(importer);
+            importer = libcellml::Importer::create(f[1] == "1");
+        } else if (op == "T") {
+            // T:<u|c>:<name>:<url>:<ref>  re-target an import of the origin model object
+            if (origin != nullptr) {
+                libcellml::ImportedEntityPtr e;
+                if (f[1] == "u") {
+                    e = origin->units(f[2]);
+                } else {
+                    e = origin->component(f[2], true);
+                }
+                if (e != nullptr && e->isImport()) {
+                    e->importSource()->setUrl(f[3] == "~" ? std::string() : f[3]);
+                    e->setImportReference(f[4] == "~" ? std::string() : f[4]);
+                }
+            }
         } else if (op == "P") {
             origin = nullptr;
             std::ifstream in(gDir + f[1], std::ios::binary);
